@@ -140,7 +140,7 @@ def model_case(obs):
             mops.append("P:%s:%s:%s" % (o["sid"], o["jp"], deaths))
             st, grew = int(o["status"]), int(o["grew"])
             if st == 400: res = "bad:-"
-            elif st == 404: res = "refused:-"
+            elif st == 404 or (st == 500 and o.get("class") == "notyet"): res = "refused:-"   # refused by the session gate ("not yet seen" is a 500 since c0e28c0)
             elif st == 200 and grew == 0: res = "ack:-"
             elif st == 200 and grew == 1: res = "prop:" + o["ent"].split(".")[5]
             else: res = "other-%d-%d:-" % (st, grew)
@@ -159,6 +159,8 @@ def model_case(obs):
             mops.append("D:%s:%s:%s" % (o["sid"], o["jd"], deaths))
             st = int(o["status"])
             res = {404: "refused", 500: "bad", 200: "ok"}.get(st, "other%d" % st)
+            if st == 500 and o.get("class") == "notyet":
+                res = "refused"
             if st == 200 and o["grew"] == "1":
                 res = "ok:" + o["ent"].split(".")[5]       # the Data of the proposed DeleteSession entry (quit message as cut by the handler)
             want.append("D:%s:%s" % (res, "1" if o["alive"] == "true" else "0")); entries += int(o["grew"])
@@ -223,11 +225,13 @@ def monitor(ops, obs):
             checked += 1
             if o["grew"] != "0" or o["ent"] != "-":
                 fails.append(("retry-applied-twice", "retry of client message id %s of session %s added log entries: %s" % (o["jp"].split(".")[-1], o["sid"], o["ent"])))
-            elif o["status"] not in ("200", "404"):
+            elif o["status"] not in ("200", "404") and not (o["status"] == "500" and o.get("class") == "notyet" and o["alive"] != "true"):
+                # a session that ended is refused by the session gate: 404 "No such session", or 500 "Session not yet seen" when
+                # lastProcessed has moved below its id (SetLastProcessed(msg.Session.Id), sic)
                 fails.append(("retry-not-acknowledged", "retry answered %s" % o["status"]))
             elif o["status"] == "200" and p.get("alive") == "true" and o["lpm"] != p["lpm"]:
                 fails.append(("retry-moved-marker", "marker %s -> %s" % (p["lpm"], o["lpm"])))
-            elif o["status"] == "404" and o["alive"] == "true":
+            elif o["status"] in ("404", "500") and o["alive"] == "true":
                 fails.append(("retry-refused-for-live-session", "retry of a live session's last message answered 404"))
         elif k == "S":
             if o.get("markers_same") != "true":
